@@ -83,7 +83,7 @@ QUIRKS = {
     "A-48": "ZADD GT / LT never add a member that is not there yet, and reply the number of UPDATED members (Redis: GT / LT do not prevent adding; the reply counts added members only)",
     "A-50": "RENAMENX replies 0 when the source does not exist (Redis: error 'no such key')",
     "A-01b": "GETRANGE with stop < -len yields the empty string (Redis clamps to the first byte)",
-    "A-51": "LPOP / RPOP with an explicit count of 1 reply one bulk string, with a count of 0 a null (Redis: an array whenever a count is given)",
+    "A-51": "LPOP / RPOP with a count of 0 reply null (Redis: an empty array)",
 }
 
 
@@ -261,8 +261,6 @@ class Ref:
         while l and len(out) < c:
             out.append(l.pop() if right else l.pop(0))
         self.put(k, "l", l)
-        if self.q and c == 1:
-            return bulk(out[0])     # A-51
         if self.q and c == 0:
             return "$N"             # A-51
         return arr(out)
